@@ -165,6 +165,10 @@ pub fn run_aiter(w: &[&str]) -> String {
             ("last", true) => { let mut l = None; while let Some(x) = it.next() { l = Some(x) } out.push(l.map(f).unwrap_or("none".into())) }
             ("count", false) => { out.push(it.count().to_string()) }
             ("count", true) => { let mut c = 0usize; while let Some(_) = it.next() { c += 1; if c >= 1 << 20 { break } } out.push(c.to_string()) }
+            // `fuse()`: after the first `None` the inner iterator is not asked again (unless it claims to be fused itself, in which
+            // case `Fuse` forwards every call: then it had better be)
+            ("fuse", false) => { let mut fz = it.fuse(); while let Some(x) = fz.next() { push!(f(x)) } for _ in 0 .. n { match fz.next() { Some(x) => push!(f(x)), None => out.push("none".into()) } } }
+            ("fuse", true) => { while let Some(x) = it.next() { push!(f(x)) } for _ in 0 .. n { out.push("none".into()) } }
             ("hint", _) => { let h = it.size_hint(); out.push(format!("{}..{}", h.0, h.1.map(|x| x.to_string()).unwrap_or("inf".into()))); let mut c = 0usize; while let Some(x) = it.next() { c += 1; if x.is_err() { break } } out.push(c.to_string()) }
             _ => return None
         }
